@@ -277,7 +277,12 @@ EventsMatchDiff(R) ==
   LET evs == R.events  exp == ExpectedEvents(R.pre, R.post) IN
   /\ \A e \in exp : Count(evs, e[1], e[2]) >= 1                                   \* every change is observable
   /\ \A e \in exp : e[1] \in StrictTypes => Count(evs, e[1], e[2]) = 1             \* ... exactly once
-  /\ \A i \in DOMAIN evs : evs[i].type \in StrictTypes => <<evs[i].type, evs[i].id>> \in exp   \* nothing spurious
+  /\ \A i \in DOMAIN evs : evs[i].type \in StrictTypes =>                          \* nothing spurious
+        \/ <<evs[i].type, evs[i].id>> \in exp
+        \* a group paused and then closed by an overdraft inside the same transaction did change in that way, transiently
+        \/ /\ evs[i].type = "group-paused" /\ Count(evs, "group-paused", evs[i].id) = 1
+           /\ Has(R.pre.grp, evs[i].id) /\ R.pre.grp[evs[i].id].state \notin {"paused", "closed", "insufficient_funds"}
+           /\ R.post.grp[evs[i].id].state \in {"closed", "insufficient_funds"}
   /\ \A d \in DOMAIN R.post.dep : (Has(R.pre.dep, d) /\ R.pre.dep[d].version # R.post.dep[d].version)
                                    => Count(evs, "deployment-updated", d) >= 1
   /\ \A i \in DOMAIN evs :
